@@ -113,16 +113,17 @@ def invoke(world, rec):
             return S.generators.intervention_targets(a["p"], a["K"], size, replace=a.get("replace", True),
                                                      random_state=seed)
         return f
+    skw = {} if rec.get("seed") == "default" else {"random_state": seed}
     if api == "utils.split_data":
         def f():
-            return S.utils.split_data(dec(a["data"]), list(a["ratios"]), random_state=seed)
+            return S.utils.split_data(dec(a["data"]), list(a["ratios"]), **skw)
         return f
     if api == "utils.add_edges":
         def f():
-            return S.utils.add_edges(dec(a["A"]), a["k"], random_state=seed)
+            return S.utils.add_edges(dec(a["A"]), a["k"], **skw)
         return f
     if api == "utils.remove_edges":
         def f():
-            return S.utils.remove_edges(dec(a["A"]), a["k"], random_state=seed)
+            return S.utils.remove_edges(dec(a["A"]), a["k"], **skw)
         return f
     raise ValueError("unknown api %r" % api)
